@@ -6,3 +6,5 @@ for c in "$@"; do
   cd /verif && ./check $c --tier quick > /tmp/mut_try_$c.log 2>&1; echo "check $c rc=$?"; grep -E "^VIOLATION|^KNOWN|^OK" /tmp/mut_try_$c.log | head -3; grep -A1 "^VIOLATION" /tmp/mut_try_$c.log | sed -n 2p | cut -c1-300
 done
 cd /repo && git checkout -- . && git status --short | head -3
+# the evidence files must describe the unchanged tree: drop what the trial wrote
+cd /verif && git checkout -- evidence 2>/dev/null
